@@ -51,6 +51,19 @@ func lookupExternal(fn *ssa.Function, name string) externalFn {
 			}
 		}
 	}
+	if strings.HasPrefix(name, "(*github.com/coreos/etcd/raft.DefaultLogger).") {
+		n := fn.Name()
+		if strings.HasPrefix(n, "Panic") || strings.HasPrefix(n, "Fatal") {
+			return func(fr *frame, args []value) value {
+				msg := "raft logger " + n
+				for _, a := range args[1:] {
+					msg += " " + describeValue(a)
+				}
+				panic(targetPanic{iface{types.Typ[types.String], msg}})
+			}
+		}
+		return func(fr *frame, args []value) value { return zeroResult(fn) }
+	}
 	// methods of logrus types reached through wrappers have Pkg == nil sometimes
 	if strings.Contains(name, "github.com/sirupsen/logrus.") {
 		return logrusStub(fn)
@@ -308,6 +321,10 @@ func registerVerifrt() {
 			}
 		}
 		P.tags = append(P.tags, t)
+		return nil
+	})
+	ext(p+"Hook", func(fr *frame, a []value) value {
+		hookFns[a[0].(string)] = a[1].(iface).v
 		return nil
 	})
 	ext(p+"Bound", func(fr *frame, a []value) value {
@@ -635,6 +652,41 @@ func registerMisc() {
 		return math.IsInf(a[0].(float64), int(asInt64(a[1])))
 	})
 
+	// math/bits.Len*: table lookups in the library; symbolic operands get an ite chain
+	bitsLen := func(w int) externalFn {
+		return func(fr *frame, a []value) value {
+			x := a[0]
+			if sx, ok := x.(symInt); ok {
+				res := mkBV(0, 64)
+				// narrow the chain when the path condition bounds the operand
+				top := w
+				for _, k := range []int{8, 16, 32} {
+					if k < w && P.solver.Check(mkBVCmp("bvule", mkBV(uint64(1)<<uint(k), w), sx.t)) == vUnsat {
+						top = k
+						break
+					}
+				}
+				for i := 0; i < top; i++ {
+					// if x >= 2^i then len >= i+1
+					res = mkIte(mkBVCmp("bvule", mkBV(uint64(1)<<uint(i), w), sx.t), mkBV(uint64(i+1), 64), res)
+				}
+				return mkIntVal(types.Int, res)
+			}
+			v := concreteBits(x)
+			n := 0
+			for v != 0 {
+				n++
+				v >>= 1
+			}
+			return n
+		}
+	}
+	ext("math/bits.Len64", bitsLen(64))
+	ext("math/bits.Len32", bitsLen(32))
+	ext("math/bits.Len", bitsLen(64))
+	ext("math/bits.Len8", bitsLen(8))
+	ext("math/bits.Len16", bitsLen(16))
+
 	// os / runtime
 	ext("os.Exit", func(fr *frame, a []value) value { panic(exitPanic(asInt64(a[0]))) })
 	ext("os.Getenv", func(fr *frame, a []value) value { return os.Getenv(a[0].(string)) })
@@ -773,6 +825,26 @@ func registerMisc() {
 	ext("math/rand.Float64", func(fr *frame, a []value) value { return 0.5 })
 	ext("math/rand.Seed", noop)
 	ext("(*math/rand.rngSource).Seed", noop)
+
+	// etcd raft node construction: the harness supplies the node (etcdRaft.Node is an interface)
+	raftStart := func(kind string) externalFn {
+		return func(fr *frame, a []value) value {
+			f, ok := hookFns["raftnode"]
+			if !ok {
+				panic(engineError{"etcd raft." + kind + " reached without a verifrt.Hook(\"raftnode\", ...) factory"})
+			}
+			P.tracef("raft.%s", kind)
+			np := 0
+			if len(a) > 1 {
+				if ps, ok := a[1].([]value); ok {
+					np = len(ps)
+				}
+			}
+			return call(fr.i, fr, 0, f, []value{kind, a[0], np})
+		}
+	}
+	ext("github.com/coreos/etcd/raft.StartNode", raftStart("StartNode"))
+	ext("github.com/coreos/etcd/raft.RestartNode", raftStart("RestartNode"))
 
 	// uuid.NewV4: fresh, distinct from everything else on the path
 	newV4 := func(fr *frame, a []value) value {
